@@ -45,6 +45,7 @@ structure Tables where
   anonAmongOthers : Bool
   metaArgsUnchecked : Bool
   ptrValueDistinct : Bool
+  unionAtMember : Bool
   reflectOptionalRefused : Bool
   eventVarsEmpty : Bool
   symbolBaseEnum : Bool
